@@ -7,7 +7,7 @@ import sys
 
 HERE = os.path.dirname(os.path.abspath(__file__))
 # checks the lead has run on the unchanged tree and against mutants; only these are claimed in MANIFEST.json
-READY = ['C01', 'C02', 'C03', 'C04', 'C06', 'C07', 'C10', 'C11', 'C12', 'C13', 'C14', 'C15', 'C17', 'C19', 'C20']
+READY = ['C01', 'C02', 'C03', 'C04', 'C05', 'C06', 'C07', 'C08', 'C09', 'C10', 'C11', 'C12', 'C13', 'C14', 'C15', 'C16', 'C17', 'C18', 'C19', 'C20']
 CHECKS = {}
 for f in sorted(glob.glob(os.path.join(HERE, 'props', 'C*.py'))):
     pid = os.path.basename(f)[:-3]
